@@ -89,10 +89,12 @@ class FakeDUL(object):
         from pynetdicom2 import exceptions
         self.receive_calls += 1
         self._drain()
-        if self.inbox:
+        while self.inbox:
             item = self.inbox.popleft()
             if callable(item):
                 item = item()
+                if item is None:
+                    continue            # (a scripted side effect, nothing to deliver)
             self.log.append(('recv', item))
             return item
         self.timeouts += 1
